@@ -78,7 +78,7 @@ def observed_path(lines):
 
 def tolerance(dtype, A, path):
     """relative tolerance of a solve-type answer: working precision x condition number for direct methods; the CG floor otherwise"""
-    kappa = float(torch.linalg.cond(A.to(torch.float64)).max())
+    kappa = min(1e5, float(torch.linalg.cond(A.to(torch.float64)).max()))
     eps = 1.2e-7 if dtype == torch.float32 else 2.2e-16
     direct = 200 * eps * max(1.0, kappa) + (1e-5 if dtype == torch.float32 else 1e-10)
     if path.startswith("cg") or path == "stochastic-lanczos-quadrature":
